@@ -63,7 +63,7 @@ Print Assumptions graph_covers_goto_chain.
         and a navigation that fails before entering anything enter no passage ---- *)
 Theorem graph_covers_transitions : forall orc ctxkeys st,
   wf_graphb st = true ->
-  forall e i, reach orc ctxkeys st e ->
+  forall e i, reachable orc ctxkeys st e ->
   exists lg, elog (fst (choose orc ctxkeys st e i)) = elog e ++ lg /\
     match nth_error (o_choices (current_out e)) (Z.to_nat i) with
     | Some ch => choose_path st (o_pid (current_out e)) (ch_target (rc_choice ch)) (nav_entered lg)
@@ -75,7 +75,7 @@ Print Assumptions graph_covers_transitions.
 (* ... every choice offered in a reachable state is an edge from the shown passage (unless "-> @join") *)
 Theorem offered_choices_are_edges : forall orc ctxkeys st,
   wf_graphb st = true ->
-  forall e rc, reach orc ctxkeys st e ->
+  forall e rc, reachable orc ctxkeys st e ->
   In rc (o_choices (current_out e)) -> is_ref (ch_target (rc_choice rc)) = true ->
   exists k, is_jump k = false /\ In (o_pid (current_out e), ch_target (rc_choice rc), k) (edges st).
 Proof. exact reach_offered_edges. Qed.
@@ -84,7 +84,7 @@ Print Assumptions offered_choices_are_edges.
 (* ... and a goto() call of the host application enters the named passage and then follows jump edges *)
 Theorem graph_covers_goto_api : forall orc ctxkeys st,
   wf_graphb st = true ->
-  forall e spec, reach orc ctxkeys st e ->
+  forall e spec, reachable orc ctxkeys st e ->
   exists lg, elog (fst (goto_op orc ctxkeys st e spec)) = elog e ++ lg /\
              path_from st (spec_name spec) (nav_entered lg).
 Proof. exact reach_goto_path. Qed.
@@ -104,9 +104,7 @@ Print Assumptions missing_is_referenced_minus_defined.
 (* the reserved "@join" target is not a passage reference: never an edge target, never missing *)
 Theorem join_not_a_reference : forall st src k,
   ~ In (src, "@join", k) (edges st) /\ ~ In "@join" (referenced st) /\ ~ In "@join" (missing st).
-Proof.
-  intros st src k. split; [apply join_never_edge|]. split; [apply join_never_referenced|apply join_never_missing_lemma].
-Qed.
+Proof. exact join_not_a_reference_lemma. Qed.
 Print Assumptions join_not_a_reference.
 
 (* ---------------------------------------------------------------------------------------- *)
@@ -170,7 +168,7 @@ Definition orc_d : pyorc :=
         (fun e _ => Ok e) (fun _ _ => Ok "") (fun _ _ => Ok ([], [])).
 Definition e_start : estate := fst (init orc_d [] ex_story []).
 
-Example ex_reach : reach orc_d [] ex_story e_start.
+Example ex_reach : reachable orc_d [] ex_story e_start.
 Proof. apply R_init. Qed.
 
 Example ex_offered :
